@@ -137,6 +137,18 @@ FIXED_DEPTH = [
     ('ul>li>a>i+{x\ny}+b', DEPTH_CFG, None),
     ('div>p{a\nb ${1} c}>x', DEPTH_CFG, 'C12:depth-multiline-field-text-with-children'),
     ('section>p{${1}l1\nl2}>em', DEPTH_CFG, 'C12:depth-multiline-field-text-with-children'),
+    # the rest of a text with a field, written after line-broken children (push_snippet path, single-line text)
+    ('p{hi ${1} there}>div', DEPTH_CFG, 'C12:depth-field-text-after-block-children'),
+    ('div>p{hi ${1} there}>div', DEPTH_CFG, 'C12:depth-field-text-after-block-children'),
+    ('div>p{hi ${1} there}>span', DEPTH_CFG, None),          # inline child: no line change, nothing deviates
+    ('div>p{hi ${1}}>div', DEPTH_CFG, None),                 # the text ends with the field: in the theorem's domain
+    # an inline element that is not line-broken although its last child is (classified in evaluate())
+    ('span>div+em+i^span>div', {'options': {'output.formatSkip': [], 'output.selfClosingStyle': 'xhtml', 'output.inlineBreak': 0}}, None),
+    ('{x}+span>div+em+i^{y}+span>div', {'options': {'output.formatSkip': [], 'output.selfClosingStyle': 'xhtml', 'output.inlineBreak': 0}}, None),
+    # text nodes with children (theorem domain: offset 0 for children of a text node)
+    ('div>{a}>p+p', DEPTH_CFG, None),
+    ('{a}>span+p', DEPTH_CFG, None),
+    ('div>{x ${1} y}>p+em', DEPTH_CFG, None),
 ]
 
 
@@ -169,6 +181,38 @@ def field_text_with_children(abbr):
     return False
 
 
+def field_text_then_children(abbr):
+    """Finding class: an element whose (single-line) text has an explicit field followed by more text and which has
+    children: push_snippet() writes the rest of the text after the children, at the level of the element."""
+    for m in re.finditer(r'\{([^{}]*\$\{[^{}]*\}[^{}]+)\}(\*\d*)?>', abbr):
+        if '\n' not in m.group(1) and '\r' not in m.group(1):
+            return True
+    return False
+
+
+CLASS_GUARD = {
+    'C12:depth-multiline-field-text-with-children': field_text_with_children,
+    'C12:depth-field-text-after-block-children': field_text_then_children,
+}
+
+ALIGN_RE = re.compile(r'^closing tag </[^>]*> at offset (\d+) stands first on its line .* opening tag \(offset (\d+)\)')
+
+
+def classify_alignment(out, cfg, bad):
+    """Known class: the element has child elements, its closing tag stands first on its line, its opening tag does NOT
+    stand first on its line (the element was not line-broken although its last child was)."""
+    m = ALIGN_RE.match(bad)
+    if not m:
+        return None
+    ooff = int(m.group(2))
+    nl = fu.resolved_options(cfg)['output.newline']
+    ls = out.rfind(nl, 0, ooff)
+    ls = 0 if ls < 0 else ls + len(nl)
+    if out[ls:ooff].strip(' \t') != '':
+        return 'C12:close-aligned-unformatted-inline-parent'
+    return None
+
+
 def load_corpus():
     out = []
     for p in sorted(glob.glob(os.path.join(CORPUS, '*.json'))):
@@ -193,6 +237,8 @@ def evaluate(kind, abbr, cfg_a, cfg_b, ra, rb):
         bad = oracle_depth(ra[1], cfg_a)
         if bad and bad.startswith(fu.ALIGN_LEAF):
             return bad, 'C12:close-aligned-inline-leaf-inner-format'
+        if bad:
+            return bad, classify_alignment(ra[1], cfg_a, bad)
         return bad, None
     if kind == 'comments':
         return oracle_comments(ra[1], rb[1], cfg_a), None
@@ -223,7 +269,8 @@ def run(ctx):
     groups = []
     for rec in load_corpus():
         groups.append({'abbr': rec['abbr'], 'cfgs': {'a': rec['cfg_a'], 'b': rec.get('cfg_b') or rec['cfg_a']},
-                       'checks': [(rec['kind'], 'a', 'b' if rec.get('cfg_b') is not None else None)], 'corpus': True})
+                       'checks': [(rec['kind'], 'a', 'b' if rec.get('cfg_b') is not None else None)], 'corpus': True,
+                       'class': rec.get('class')})
         ctx.cover('C12:corpus')
     for abbr, ca, cb in FIXED:
         groups.append({'abbr': abbr, 'cfgs': {'a': ca, 'b': cb}, 'checks': [('cosmetic', 'a', 'b')]})
@@ -278,7 +325,7 @@ def run(ctx):
                 ctx.cover('C12:syntax-' + syn)
                 if ra[1].count('<') >= 3:
                     ctx.nontrivial((abbr, canon_cfg(cfg_a), kind))
-            if bad and kind == 'depth' and gr.get('class') and field_text_with_children(abbr):
+            if bad and kind == 'depth' and cls is None and gr.get('class') and CLASS_GUARD[gr['class']](abbr):
                 cls = gr['class']
             if bad:
                 key = cls or 'C12:%s|%s|%s|%s' % (kind, abbr, canon_cfg(cfg_a), canon_cfg(cfg_b) if cfg_b else '')
